@@ -539,6 +539,8 @@ impl Drop for Driver {
                 Self::CANCEL | Self::NOTIFY => {}
                 key => {
                     self.in_flight.remove(&(key as usize));
+                    #[cfg(compio_verif)]
+                    crate::verif::emit(crate::verif::DROP_DRAIN, key, 0);
                     drop(unsafe { ErasedKey::from_raw(key as _) });
                 }
             }
